@@ -2,6 +2,9 @@
 from buidl import hash as bhash, pecc, phash
 from buidl.pecc import PrivateKey, S256Point, SchnorrSignature
 
+from vp.core import ImplTimeout
+from vp.sexp import ERR
+
 from . import ecref
 from .ecref import N, P
 
@@ -11,7 +14,16 @@ RULE = ("Keys of both public-key parities and nonces of both R parities (classes
         "secrets {1, 2, n-1, n-2, 2^128, 2^255} plus random; every single-bit flip of sampled valid signatures "
         "(all 512 in the thorough tier), flips of message and key bits; R = 0, R >= p, R not the x coordinate "
         "of a curve point, s in {0, n, n+1, 2^256-1}, s+n; public keys 0, >= p, off-curve; the official BIP340 "
-        "test vectors; call histories of tagged_hash with repeated and fresh tags.")
+        "test vectors; call histories of tagged_hash with repeated and fresh tags; point objects of both parities, the "
+        "point at infinity and rejected constructor arguments; signature objects with s in range, s < 0, s >= n and "
+        "odd-y R; SEC keys of 33 and 65 bytes and a wrong-parity prefix; signature strings of 0, 1, 31, 32, 33, 48, 62, 63, "
+        "64, 65 and 96 bytes including a signature whose s starts with a zero byte; sessions mixing tagged_hash, sign "
+        "and verify (succeeding and failing calls) observed together with the tags left in TAG_HASH_CACHE.")
+# the extraction self-check (vm_compute inside Coq) cannot run secp256k1 scalar multiplications in its time limit:
+# the curve entry points are left to the extracted driver; parsers, lift_x, the codec and the tag cache are re-evaluated
+VM_SKIP = {"sign_schnorr", "bip340_sign", "bip340_k", "verify_schnorr", "bip340_verify", "sign_schnorr_noaux",
+           "bip340_k_noaux", "bip340_nonce", "sign_schnorr_obj", "verify_schnorr_point", "verify_schnorr_obj",
+           "bip340_verify_canon", "api_session"}
 TRUSTED = ["hashlib (sha256 is a universally quantified function in every theorem)",
            "CPython pow(b, e, m) — modelled by square-and-multiply (Model/Pecc.v modpow)",
            "harness reference implementation props/ecref.py (independent BIP340 on Python ints) — second judge "
@@ -82,7 +94,56 @@ def i_tagged_history(calls):
     return [phash.tagged_hash(t, m) for t, m in calls]
 
 
+def i_sign_obj(d, m, a):
+    so = PrivateKey(d).sign_schnorr(m, a)
+    return [_pt(so.r), so.s]
+
+
+def _mkpt(v):
+    """the constructor call S256Point(x, y) on ints; [] = S256Point(None, None)"""
+    return S256Point(None, None) if v == [] else S256Point(v[0], v[1])
+
+
+def i_verify_point(pv, m, sig):
+    return _mkpt(pv).verify_schnorr(m, SchnorrSignature.parse(sig))
+
+
+def i_verify_obj(pv, m, rv, s):
+    return _mkpt(pv).verify_schnorr(m, SchnorrSignature(_mkpt(rv), s))
+
+
+def i_api_session(calls):
+    """a call history sharing TAG_HASH_CACHE, started from the empty cache; returns every answer (ERR for an
+    exception) and the tags in the cache afterwards, newest first"""
+    phash.TAG_HASH_CACHE.clear()
+    outs = []
+    for c in calls:
+        try:
+            if c[0] == 0:
+                o = phash.tagged_hash(c[1], c[2])
+            elif c[0] == 1:
+                o = PrivateKey(c[1]).sign_schnorr(c[2], c[3]).serialize()
+            else:
+                o = S256Point.parse(c[1]).verify_schnorr(c[2], SchnorrSignature.parse(c[3]))
+        except ImplTimeout:
+            raise
+        except Exception:  # noqa
+            o = ERR
+        outs.append(o)
+    return [outs, list(reversed(list(phash.TAG_HASH_CACHE.keys())))]
+
+
 IMPL = {
+    "sign_schnorr_noaux": lambda d, m: PrivateKey(d).sign_schnorr(m).serialize(),
+    "bip340_k_noaux": lambda d, m: PrivateKey(d).bip340_k(m),
+    "bip340_nonce": i_bip340_k,
+    "sign_schnorr_obj": i_sign_obj,
+    "schnorr_parse_eq": lambda a, b: SchnorrSignature.parse(a) == SchnorrSignature.parse(b),
+    "schnorr_reserialize": lambda sig: SchnorrSignature.parse(sig).serialize(),
+    "verify_schnorr_point": i_verify_point,
+    "verify_schnorr_obj": i_verify_obj,
+    "bip340_verify_canon": i_accepts,
+    "api_session": i_api_session,
     "sign_schnorr": i_sign,
     "bip340_sign": i_sign,
     "bip340_k": i_bip340_k,
@@ -253,7 +314,108 @@ def p_key_reuse(d, msgs, auxs, order):
     return None
 
 
-PROPS = {"sign": p_sign, "nonce": p_nonce, "verify_ref": p_verify_ref, "tagged": p_tagged,
+def canon64(sig):
+    """what SchnorrSignature.parse reads of a string of at least 32 bytes, as a 64-byte string"""
+    return sig[:32] + int.from_bytes(sig[32:64], "big").to_bytes(32, "big")
+
+
+def p_any_length(pk, m, sig):
+    """signature strings of any length: fewer than 32 bytes are rejected; otherwise accepted exactly when BIP340
+    accepts the canonical 64-byte form (first 32 bytes, bytes 32..63 as an integer); the re-serialisation of an
+    accepted string is that form"""
+    got = i_accepts(pk, m, sig)
+    want = len(sig) >= 32 and ecref.bip340_verify(pk, m, canon64(sig))
+    if got != want:
+        return f"verify_schnorr {'accepts' if got else 'rejects'} a {len(sig)}-byte string, BIP340 on its canonical form {'accepts' if want else 'rejects'}"
+    try:
+        so = SchnorrSignature.parse(sig)
+    except Exception:  # noqa
+        return None
+    if len(sig) < 32:
+        return "SchnorrSignature.parse accepts fewer than 32 bytes"
+    if so.serialize() != canon64(sig):
+        return "SchnorrSignature.parse(sig).serialize() is not the canonical form of sig"
+    return None
+
+
+def p_sec_key(d, m, sig):
+    """a key given as a SEC string (compressed or uncompressed, either parity) or as the point object itself
+    verifies exactly like its x-only form"""
+    pt = PrivateKey(d).point
+    want = ecref.bip340_verify(pt.xonly(), m, sig) if len(sig) == 64 else i_accepts(pt.xonly(), m, sig)
+    for nm, kb in (("compressed SEC", pt.sec(True)), ("uncompressed SEC", pt.sec(False)), ("x-only", pt.xonly())):
+        if i_accepts(kb, m, sig) != want:
+            return f"verification under the {nm} key differs from BIP340 under the x-only key ({want})"
+    try:
+        got = pt.verify_schnorr(m, SchnorrSignature.parse(sig)) is True
+    except Exception:  # noqa
+        got = False
+    if got != want:
+        return f"verification on the point object differs from BIP340 under the x-only key ({want})"
+    return None
+
+
+def p_other_s(d, m, a, sb):
+    """for the key, the message and the R of a produced signature exactly one s is accepted"""
+    key = PrivateKey(d)
+    sig = key.sign_schnorr(m, a).serialize()
+    cand = sig[:32] + sb
+    got = i_accepts(key.point.xonly(), m, cand)
+    if got != (cand == sig):
+        return f"R || {sb.hex()} is {'accepted' if got else 'rejected'}; the signature has s = {sig[32:].hex()}"
+    return None
+
+
+def p_sig_object(d, m, a):
+    """the SchnorrSignature object returned by sign_schnorr: R has even y, s < n, and
+    parse(serialize()) == the object; parse(x) == parse(y) exactly when x == y"""
+    so = PrivateKey(d).sign_schnorr(m, a)
+    if so.r.x is None or so.r.y.num % 2 != 0:
+        return "the signature object's R is not a finite point with even y"
+    if not 0 <= so.s < N:
+        return "the signature object's s is out of range"
+    ser = so.serialize()
+    back = SchnorrSignature.parse(ser)
+    if not (back == so) or back.r.x.num != so.r.x.num or back.r.y.num != so.r.y.num or back.s != so.s:
+        return "SchnorrSignature.parse(sig.serialize()) is not the signature object"
+    other = ser[:63] + bytes([ser[63] ^ 1])
+    try:
+        if SchnorrSignature.parse(other) == so:
+            return "two different 64-byte strings parse to == objects"
+    except Exception:  # noqa
+        pass
+    return None
+
+
+def p_session(calls):
+    """State kept across calls.  A history of tagged_hash / sign / verify calls sharing TAG_HASH_CACHE (started from
+    whatever earlier cases left in it): every answer equals the reference computed without any cache"""
+    for step, c in enumerate(calls):
+        try:
+            if c[0] == 0:
+                got, want = phash.tagged_hash(c[1], c[2]), ecref.tagged(c[1], c[2])
+            elif c[0] == 1:
+                want = ecref.bip340_sign(c[1], c[2], c[3]) if len(c[2]) == 32 and len(c[3]) == 32 else None
+                try:
+                    got = PrivateKey(c[1]).sign_schnorr(c[2], c[3]).serialize()
+                except ImplTimeout:
+                    raise
+                except Exception:  # noqa
+                    got = None
+            else:
+                got, want = i_accepts(c[1], c[2], c[3]), ecref.bip340_verify(c[1], c[2], c[3])
+        except ImplTimeout:
+            raise
+        if got != want:
+            return f"call {step} of the session (kind {c[0]}) answers differently from the cache-free reference"
+    for t, v in phash.TAG_HASH_CACHE.items():
+        if v != ecref.hashlib.sha256(t).digest() * 2:
+            return "a TAG_HASH_CACHE entry is not sha256(tag) * 2 after the session"
+    return None
+
+
+PROPS = {"any_length": p_any_length, "sec_key": p_sec_key, "other_s": p_other_s, "sig_object": p_sig_object,
+         "session": p_session, "sign": p_sign, "nonce": p_nonce, "verify_ref": p_verify_ref, "tagged": p_tagged,
          "tagged_wrappers": p_tagged_wrappers, "key_reuse": p_key_reuse}
 
 # ---------------------------------------------------------------- official BIP340 test vectors
@@ -398,8 +560,152 @@ def leading_zero_t(r, ctx, nz, aux):
     return []
 
 
+# a signature whose s starts with a zero byte (found by search over aux): dropping that byte gives a 63-byte
+# string that SchnorrSignature.parse reads as the same (R, s) — the "short read" class of the any-length theorems
+LEADING_ZERO_S = (3, bytes(32), (339).to_bytes(32, "big"))
+
+
+def _generate_ext(ctx):
+    """object-level API, defaults, SEC keys, signature strings of any length, the 64-byte codec, s uniqueness, sessions
+    sharing TAG_HASH_CACHE (theorems C02_verify_object .. C02_api_session_transparent)"""
+    r = ctx.rng
+    keys = [3, N - 3, 2 ** 200 + 7] + [rscalar(r) for _ in range(ctx.n(2, 40))]
+    # make sure both public-key parities occur
+    par = {ecref.mul(d, ecref.G)[1] % 2 for d in keys}
+    d = 5
+    while len(par) < 2:
+        if ecref.mul(d, ecref.G)[1] % 2 not in par:
+            keys.append(d)
+            par.add(ecref.mul(d, ecref.G)[1] % 2)
+        d += 1
+    signed = []
+    for i, d in enumerate(keys):
+        m, a = ctx.rbytes(32), ctx.rbytes(32)
+        q = ecref.mul(d, ecref.G)
+        sig = ecref.bip340_sign(d, m, a)
+        signed.append((d, q, m, a, sig))
+        ctx.label("ext/P-odd" if q[1] % 2 else "ext/P-even")
+        yield ("corr", "sign_schnorr_obj", [d, m, a])
+        yield ("corr", "bip340_nonce", [d, m, a])
+        yield ("prop", "sig_object", [d, m, a])
+        if i < ctx.n(2, 12):
+            yield ("corr", "sign_schnorr_noaux", [d, m])
+            yield ("corr", "bip340_k_noaux", [d, m])
+            ctx.label("ext/aux-default")
+    for d in (0, N, -1):
+        yield ("corr", "bip340_nonce", [d, bytes(32), bytes(32)])
+        yield ("corr", "sign_schnorr_obj", [d, bytes(32), bytes(32)])
+        yield ("corr", "sign_schnorr_noaux", [d, bytes(32)])
+        yield ("corr", "bip340_k_noaux", [d, bytes(32)])
+    for ml in (0, 31, 33):
+        yield ("corr", "sign_schnorr_noaux", [7, ctx.rbytes(ml)])
+        yield ("corr", "bip340_k_noaux", [7, ctx.rbytes(ml)])
+        yield ("corr", "sign_schnorr_obj", [7, ctx.rbytes(ml), bytes(32)])
+        ctx.label("ext/bad-length")
+
+    # ---- the 64-byte codec, == of signature objects
+    for i, (d, q, m, a, sig) in enumerate(signed[:ctx.n(3, 30)]):
+        rb, sb = sig[:32], sig[32:]
+        s = int.from_bytes(sb, "big")
+        other = signed[(i + 1) % len(signed)][4]
+        pairs = [(sig, sig), (sig, rb + b32((s + 1) % N)), (sig, other), (sig, other[:32] + sb), (sig, sig + b"\x00"),
+                 (sig, rb + b32(N)), (b32(P) + sb, sig), (bytes(32) + sb, bytes(32) + sb), (bytes(32) + sb, sig),
+                 (sig[:40], rb + bytes(24) + sig[32:40]), (sig, sig[:31]), (b"", b"")]
+        for x, y in pairs:
+            ctx.label("codec/eq")
+            yield ("corr", "schnorr_parse_eq", [x, y])
+        for x in (sig, sig + b"\x01\x02", sig[:63], sig[:40], sig[:33], sig[:32], sig[:31], b"", bytes(32) + sb, b32(P) + sb,
+                  b32(off_curve_x(r)) + sb, rb + b32(N), rb + b32(N - 1), rb + bytes(32), ctx.rbytes(64), ctx.rbytes(r.randrange(0, 100))):
+            ctx.label("codec/reserialize/len=%s" % ("64" if len(x) == 64 else "<32" if len(x) < 32 else "<64" if len(x) < 64 else ">64"))
+            yield ("corr", "schnorr_reserialize", [x])
+            yield ("corr", "schnorr_parse", [x])
+
+    # ---- verify_schnorr on point OBJECTS of either parity and on signature OBJECTS
+    for i, (d, q, m, a, sig) in enumerate(signed[:ctx.n(4, 40)]):
+        rb, sb = sig[:32], sig[32:]
+        s = int.from_bytes(sb, "big")
+        R = ecref.lift_x(int.from_bytes(rb, "big"))
+        pv, rv = [q[0], q[1]], [R[0], R[1]]
+        bad = bytearray(sig)
+        bad[r.randrange(64)] ^= 1 << r.randrange(8)
+        for pvx, sg in ((pv, sig), (pv, bytes(bad)), ([q[0], P - q[1]], sig), ([], sig), ([q[0], (q[1] + 1) % P], sig),
+                        ([q[0] + P, q[1]], sig), ([-1, q[1]], sig), (pv, sig[:63]), (pv, bytes(32) + sb), (pv, sig + b"x")):
+            ctx.label("object/verify-on-point/" + ("infinity" if pvx == [] else "P-odd" if pvx[1] % 2 else "P-even"))
+            yield ("corr", "verify_schnorr_point", [pvx, m, sg])
+        if i < ctx.n(2, 20):
+            for pvx, rvx, sv in ((pv, rv, s), (pv, [R[0], P - R[1]], s), (pv, rv, s - N), (pv, rv, s + N), (pv, rv, (s + 1) % N),
+                                 (pv, [], s), ([], rv, s), (pv, rv, -1), (pv, rv, 0), ([q[0], P - q[1]], [R[0], P - R[1]], s - 2 * N),
+                                 (pv, [R[0], (R[1] + 1) % P], s), (pv, pv, s)):
+                ctx.label("object/signature-object/" + ("s<0" if sv < 0 else "s>=n" if sv >= N else "s-in-range"))
+                yield ("corr", "verify_schnorr_obj", [pvx, m, rvx, sv])
+        # SEC keys
+        key = PrivateKey(d)
+        for kb in (key.point.sec(True), key.point.sec(False), bytes([5 - key.point.sec(True)[0]]) + key.point.sec(True)[1:]):
+            ctx.label("sec-key/%d-bytes" % len(kb))
+            yield ("corr", "verify_schnorr", [kb, m, sig])
+            yield ("corr", "verify_schnorr", [kb, m, bytes(bad)])
+        yield ("prop", "sec_key", [d, m, sig])
+        yield ("prop", "sec_key", [d, m, bytes(bad)])
+        yield ("prop", "sec_key", [d, m, sig + b"\x00"])
+
+    # ---- signature strings of any length
+    d0, m0, a0 = LEADING_ZERO_S
+    lz = ecref.bip340_sign(d0, m0, a0)
+    pk0 = b32(ecref.mul(d0, ecref.G)[0])
+    lzs = [(pk0, m0, lz)] if lz and lz[32] == 0 else []
+    if not lzs:
+        ctx.label("any-length/leading-zero-vector-dropped")
+    if ctx.tier != "quick":
+        for d in keys[:3]:
+            m = ctx.rbytes(32)
+            for _ in range(1500):
+                sg = ecref.bip340_sign(d, m, ctx.rbytes(32))
+                if sg[32] == 0:
+                    lzs.append((b32(ecref.mul(d, ecref.G)[0]), m, sg))
+                    break
+    for pk, m, sg in lzs:
+        for x in (sg, sg[:32] + sg[33:], sg[:32] + sg[34:], sg[:32] + b"\x00" + sg[32:], sg[:32] + sg[33:] + b"\x00", sg[:63]):
+            ctx.label("any-length/leading-zero-s/len=%d" % len(x))
+            yield ("corr", "verify_schnorr", [pk, m, x])
+            yield ("corr", "bip340_verify_canon", [pk, m, x])
+            yield ("prop", "any_length", [pk, m, x])
+    for i, (d, q, m, a, sig) in enumerate(signed[:ctx.n(2, 20)]):
+        pk = b32(q[0])
+        for x in (sig, sig + b"\x00", sig + ctx.rbytes(32), sig[:63], sig[:48], sig[:33], sig[:32], sig[:31], sig[:1], b""):
+            ctx.label("any-length/len=%s" % ("64" if len(x) == 64 else "<32" if len(x) < 32 else "<64" if len(x) < 64 else ">64"))
+            if len(x) >= 32:
+                yield ("corr", "bip340_verify_canon", [pk, m, x])
+            yield ("corr", "verify_schnorr", [pk, m, x])
+            yield ("prop", "any_length", [pk, m, x])
+
+    # ---- for one key, message and R exactly one s is accepted
+    for i, (d, q, m, a, sig) in enumerate(signed[:ctx.n(2, 25)]):
+        s = int.from_bytes(sig[32:], "big")
+        for sv in (s, (s + 1) % N, (N - s) % N, 0, 1, N - 1, r.randrange(N), s ^ (1 << r.randrange(250))):
+            ctx.label("s-unique/" + ("same" if sv == s else "other"))
+            yield ("prop", "other_s", [d, m, a, b32(sv % N)])
+
+    # ---- sessions sharing TAG_HASH_CACHE
+    tags = [b"BIP0340/aux", b"BIP0340/nonce", b"BIP0340/challenge", b"TapTweak", b"", b"BIP0340/auy"]
+    for i in range(ctx.n(3, 40)):
+        d, q, m, a, sig = signed[i % len(signed)]
+        pk = b32(q[0])
+        bad = bytearray(sig)
+        bad[r.randrange(64)] ^= 1 << r.randrange(8)
+        pool = [[0, r.choice(tags), ctx.rbytes(r.randrange(0, 40))], [0, r.choice(tags), ctx.rbytes(r.randrange(0, 40))],
+                [1, d, m, a], [2, pk, m, sig], [2, pk, m, bytes(bad)], [1, d, ctx.rbytes(31), a], [1, 0, m, a],
+                [2, pk, m, sig[:31]], [2, b32(P), m, sig], [2, pk, m, bytes(32) + sig[32:]], [0, b"BIP0340/challenge", b""]]
+        calls = [r.choice(pool) for _ in range(r.randrange(3, 7))]
+        if i == 0:
+            calls = [[2, pk, m, sig[:31]], [1, 0, m, a], [1, d, ctx.rbytes(31), a], [2, pk, m, sig], [1, d, m, a], [0, b"x", b""]]
+        ctx.label("session/%d-calls" % len(calls))
+        yield ("corr", "api_session", [calls])
+        yield ("prop", "session", [calls])
+
+
 def generate(ctx):
     yield from _generate(ctx)
+    yield from _generate_ext(ctx)
     r = ctx.rng
     # ---- boundary class: the xor operand t of the nonce derivation has leading zero bytes (a t serialised without
     # them changes the nonce hash input from 96 to fewer bytes; the signature stays valid but is not BIP340's)
